@@ -703,6 +703,8 @@ def b_type(I, args, kwargs):
     (v,) = args
     if isinstance(v, SOpt):
         v = v.value if I.fmode else I.unwrap_opt(v, "type() argument")
+    if isinstance(v, SObj) and getattr(v.cls, "pytype", None) is not None:
+        return v.cls.pytype  # collaborators declared to be instances of one Python class
     if isinstance(v, (SObj, SEnum)):
         return v.cls
     if isinstance(v, STypedInt):
@@ -1361,6 +1363,13 @@ def int_method(I, v, name, args, kwargs):
 
 def native_mutable_method(I, obj, name, args, kwargs):
     """Methods of concrete list/dict/set values living in a symbolic run."""
+    if name in ("pop", "popitem", "setdefault", "update", "clear", "append", "extend", "insert", "remove", "add", "discard",
+                "sort", "reverse", "__setitem__", "__delitem__"):
+        from . import modstate
+
+        owner = modstate.touch(obj)
+        if owner:
+            I.ctx.assumptions_used.add(f"record:module-level state written by the code under analysis: {owner} (restored after every path)")
     if isinstance(obj, dict):
         if name == "get":
             key = args[0]
